@@ -10,6 +10,30 @@ pub mod refmodel;
 
 #[cfg(kani)]
 pub mod stubs;
+#[cfg(kani)]
+pub mod util;
+#[cfg(kani)]
+pub mod models;
+#[cfg(kani)]
+pub mod gen;
 
 #[cfg(kani)]
 mod c20_math;
+#[cfg(kani)]
+mod c12_codec;
+#[cfg(kani)]
+mod c12_wire;
+#[cfg(kani)]
+mod c10_rules;
+#[cfg(kani)]
+mod c02_c08_tree;
+#[cfg(kani)]
+mod c19_retention;
+#[cfg(kani)]
+mod c13_derive;
+#[cfg(kani)]
+mod c03_c05_framing;
+#[cfg(all(kani, feature = "fs_noooo"))]
+mod c05_ratchet_request;
+#[cfg(all(kani, feature = "fs_std"))]
+mod c16_external;
